@@ -89,6 +89,33 @@ def shard(p):
                         fs2 = [(ea, 1), (b, pw)]
                         sv2, _ = V.factors_si(fs2)
                         checks.append(("pairs", ["1 %s to %s" % (G.text(fs2), G.text(f2, rng))], (lambda vs, want=sv2 / s2: None if vs[0][0] == want else "is %s, the scales give %s" % (vs[0][0], want))))
+        # extreme but allowed: three or four units, each under one of the largest / smallest prefixes and at power +-3, all pulling
+        # the same way (10^288 between source and target): tables and clamps for powers of ten (seed C03-f)
+        big = [e for e in V.entries if abs(e["prefix"]) >= 15]
+        for _ in range(p["n"] // 60 if big else 0):
+            sg = rng.choice([1, -1])
+            fs, keys = [], set()
+            for _k in range(rng.choice([3, 4, 4])):
+                e = rng.choice(big)
+                if e["key"] in keys or (e["prefix"] > 0) != (big[0]["prefix"] > 0 if False else e["prefix"] > 0):
+                    continue
+                keys.add(e["key"])
+                fs.append((e, 3 * sg * (1 if e["prefix"] > 0 else -1)))
+            if len(fs) < 3:
+                continue
+            tgt = []
+            for e, pw in fs:
+                bares = [b for b in V.by_key[e["key"]] if b["bare"]]
+                if not bares:
+                    break
+                tgt.append((bares[0], pw))
+            if len(tgt) != len(fs):
+                continue
+            s1, _d = V.factors_si(fs)
+            s2, _d = V.factors_si(tgt)
+            want = s1 / s2
+            checks.append(("absolute", ["1 %s to %s" % (G.text(fs), G.text(tgt))], (lambda vs, want=want: None if vs[0][0] == want else "is %s, the prefixes give %s" % (vs[0][0], want))))
+            checks.append(("absolute", ["1 %s to %s" % (G.text(tgt), G.text(fs))], (lambda vs, want=want: None if vs[0][0] == 1 / want else "is %s, the prefixes give %s" % (vs[0][0], 1 / want))))
         for _ in range(p["n"]):
             f1 = V.rand_factors(rng, nmax=rng.choice([1, 1, 2, 3, 4]))
             s1, dims = V.factors_si(f1)
